@@ -91,8 +91,9 @@ def unit_formula(h):
         return h.fail("C14.totality_above_the_gate", f"raised {res}")
     rows = z3.And(*t.nonrep.axis.facts())
     lower, upper = res.lower, res.upper
-    h.ensures("C03.lower_floor", z3.Implies(rows, lower.t >= t.res))
-    h.ensures("C03.upper_floor", z3.Implies(rows, upper.t >= t.res))
+    rp_floor = lambda ev: {"target": "verif_replays:unit_interval_floor_replay", "args": ["gaussian"], "check": "result['exc'] is None and result['ok']"}  # noqa: E731
+    h.ensures("C03.lower_floor", z3.Implies(rows, lower.t >= t.res), replay=rp_floor)
+    h.ensures("C03.upper_floor", z3.Implies(rows, upper.t >= t.res), replay=rp_floor)
     h.ensures("C03.whole_numbers", z3.Implies(rows, z3.And(z3.IsInt(real(lower.t)), z3.IsInt(real(upper.t)))))
     fits = [c for c in h.interp.call_log if c[0] == "gaussian.fit"]
     h.ensures("statistics_come_from_the_calibration_rows", len(fits) == 1 and fits[0][1]["conf"] is res.conformalization)
